@@ -211,15 +211,23 @@ def _body_of(st):
 def _norm_fn(fn: ast.FunctionDef) -> str:
     """α-normalised dump of a helper function: parameter names replaced by positions."""
     ren = {a.arg: f"p{i}" for i, a in enumerate(fn.args.args)}
-    import copy
-    fn2 = copy.deepcopy(fn)
+    from engine.inline import clone
+    fn2 = clone(fn)
     for n in ast.walk(fn2):
         if isinstance(n, ast.Name) and n.id in ren:
             n.id = ren[n.id]
-        if isinstance(n, ast.arg) and n.arg in ren:
-            n.arg = ren[n.arg]
+        if isinstance(n, ast.arg):
+            if n.arg in ren:
+                n.arg = ren[n.arg]
+            n.annotation = None          # type hints and docstrings do not change the function
+            n.type_comment = None
     fn2.name = "_"
     fn2.decorator_list = []
+    fn2.returns = None
+    fn2.type_comment = None
+    if fn2.body and isinstance(fn2.body[0], ast.Expr) and isinstance(fn2.body[0].value, ast.Constant) and isinstance(fn2.body[0].value.value, str) \
+            and len(fn2.body) > 1:
+        fn2.body = fn2.body[1:]
     return ast.dump(fn2, include_attributes=False)
 
 
@@ -315,6 +323,14 @@ def r5_helper_agreement(ctx, rid):
         lam = r.module_lambda("sigmoid")
         if lam:
             items.append((be, r, lam[1], lam[0].body, lam[0].args.args[0].arg))
+        elif "sigmoid" in r.module.functions:
+            # the same helper written as a def with a single return
+            g = r.module.functions["sigmoid"].node
+            body = [b for b in g.body if not (isinstance(b, ast.Expr) and isinstance(b.value, ast.Constant))]
+            if len(body) == 1 and isinstance(body[0], ast.Return) and body[0].value is not None and g.args.args:
+                items.append((be, r, g, body[0].value, g.args.args[0].arg))
+            else:
+                raise AnalysisError(f"{rid}: {r.module.rel}::sigmoid is not a one-expression function (unrecognised form)")
     if len(items) < 3:
         raise AnalysisError(f"{rid}: sigmoid definitions vanished ({len(items)} found)")
     for be, r, st, body, arg in items:
